@@ -64,6 +64,8 @@ def run(ctx):
     obs = ctx.obs
     meta = dict(META)
     obs.extra['meta'] = meta
+    from ..model import set_cell_scale_varies
+    set_cell_scale_varies(True)            # some datasets are 100 m / 5 m models expressed in degrees
     contracts.attach_all(obs, only={'blur_mask', 'smear_mask', 'c_mask_from_centres', 'buffer_faces', 'mask_from_face_indexes'})
     primitives(ctx, obs)
     if ctx.thorough and ctx.shard == 0 and ctx.only_case is None:
